@@ -15,7 +15,7 @@ Lemma calls_wakefd_wake_ok : calls_wakefd_wake =
 Proof. reflexivity. Qed.
 
 Lemma calls_wakefd_set_flags_ok : calls_wakefd_set_flags =
-  ["libc::fcntl"; ".as_raw_fd"; "Error::last_os_error"; "libc::fcntl"; ".as_raw_fd"; "Error::last_os_error"].
+  ["libc::fcntl"; ".as_raw_fd"; "return"; "Error::last_os_error"; "libc::fcntl"; ".as_raw_fd"; "return"; "Error::last_os_error"].
 Proof. reflexivity. Qed.
 
 Lemma calls_wakefd_drop_ok : calls_wakefd_drop =
@@ -23,7 +23,7 @@ Lemma calls_wakefd_drop_ok : calls_wakefd_drop =
 Proof. reflexivity. Qed.
 
 Lemma calls_register_raw_ok : calls_register_raw =
-  ["libc::getsockopt"; ".set_flags"; ".wake"; "super::register"].
+  ["libc::getsockopt"; ".set_flags"; "?"; ".wake"; "super::register"].
 Proof. reflexivity. Qed.
 
 Lemma calls_register_ok : calls_register =
